@@ -5,7 +5,7 @@ cd /verif
 glob=${1:-*}
 if [ -n "$(git -C /repo status --porcelain --untracked-files=no)" ]; then echo "/repo not clean"; exit 2; fi
 fail=0
-for d in seeded/$glob/; do
+for d in /verif/seeded/$glob/; do
   name=$(basename $d)
   checks=$(python3 -c "import json;print(' '.join(json.load(open('$d/meta.json'))['caught_by']))")
   if ! git -C /repo apply --check $d/patch.diff 2>/dev/null; then echo "$name: patch no longer applies to /repo HEAD"; fail=1; continue; fi
